@@ -79,7 +79,8 @@ func isFrameableHTMLResponse(statusCode int, responseHeader http.Header) bool {
 		return false
 	}
 	for _, contentDisposition := range responseHeader[contentDispositionHeader] {
-		if strings.Contains(contentDisposition, "attachment") {
+		// The disposition type is case-insensitive (RFC 6266, section 4.2).
+		if strings.Contains(strings.ToLower(contentDisposition), "attachment") {
 			return false
 		}
 	}
